@@ -156,9 +156,10 @@ def element_records(cases, obs):
             continue
         dmin, dmax, bh = depth_settings(c["args"].get("cfgx"))
         for j, (el, p) in enumerate(zip(c["args"]["elements"], o.get("parts") or [])):
-            if el["kind"] != "ALQ" or not el.get("chain") or p.get("pieces") is None:
+            chain = ["ALL"] if el["kind"] == "ALL" else el.get("chain") if el["kind"] == "ALQ" else None
+            if not chain or p.get("pieces") is None:
                 continue
-            recs.append({"id": "%s#%d" % (c["id"], j), "chain": el["chain"], "dmin": dmin, "dmax": dmax, "bh": bh,
+            recs.append({"id": "%s#%d" % (c["id"], j), "chain": chain, "dmin": dmin, "dmax": dmax, "bh": bh,
                          "exc": "none", "pieces": p["pieces"]})
     return recs
 
